@@ -186,9 +186,21 @@ def random_cases(ctx, st, pt):
         n = len(T.seq)
         a = rng.randrange(n)
         b = rng.randint(a + 1, min(n, a + rng.choice([1, 2, 3, 5, 8])))
+        sib = None
+        if rng.random() < 0.12:
+            # a residue of the stretch carries one modification twice next to another one ([A][A][B]); the query may
+            # carry the other multiplicity ([A][B][B]): same length, same distinct modifications, different multiset
+            sib = rng.randrange(a, b)
+            A_ = M('+1', mono=1.0, avg=1.0, kind='int')
+            B_ = M(rng.choice(['+2', 'Methyl']), mono=2.0, avg=2.0, kind='int')
+            T.res[sib] = [A_, M(A_.text, 1, 1.0, 1.0, kind='int'), B_]
         Q = rp.slice_pep(T, a, b)
         perturbed = False
-        if rng.random() < 0.3:
+        if sib is not None and rng.random() < 0.7:
+            x = Q.res[sib - a]
+            Q.res[sib - a] = [x[0], M(x[2].text, 1, 2.0, 2.0, kind='int'), x[2]]
+            perturbed = True
+        elif rng.random() < 0.3:
             P2 = perturb(rng, Q, T)
             if P2 is not None:
                 Q, perturbed = P2, True
